@@ -28,7 +28,8 @@ LEVEL = "fault_enumeration"
 RULE = (
     "state = {file name -> content} of destination + input directory; transitions = (run configuration, index of "
     "intercepted file-mutating call, fault kind in error-before/error-after/kill-before/kill-after/torn) plus the "
-    "fault-free run of every configuration (an earlier successful run with other inputs/chunking/prefix); breadth-first "
+    "fault-free run of every configuration (an earlier successful run with other inputs/chunking/prefix) and the user "
+    "re-exporting an input file as an already rectangular table; breadth-first "
     "from the pristine state with de-duplication on the canonical state; evaluation = one fault-free run of one "
     "configuration in one reached state compared with the pristine-state run. Non-trivial iff the state contains at "
     "least one file that is not an input (a leftover); distinct by (state hash, configuration)"
@@ -224,6 +225,8 @@ def check_state_run(state, run, acc, hist):
     if run["kind"] not in ("rollup", "confroll"):
         new = [k for k in after if k not in state and k not in want and k.startswith("0:")]
         new += [k for k in after if k.startswith("1:") and k.endswith(".tsv") and k not in state]
+        # a pre-existing file that this run re-wrote (same name, other content) and left behind is its own intermediate file
+        new += [k for k in after if k in state and after[k] != state[k] and k not in want and not k.endswith(".pin")]
         if new:
             acc.violation(Violation(f"{tag}-leaves-intermediate-files", f"{run}: intermediate file(s) {sorted(new)[:5]} remain after a successful run", case))
         # intermediates of this run's own name pattern that pre-existed must not survive as *modified* files either
@@ -260,6 +263,14 @@ def worker(item):
         ok_state = _AFTER[0]
         seen[faults.state_key(ok_state)] = (ok_state, hist + [{"run": run, "fault": [-1, "none", []]}])
         acc.count("transitions")
+        if run["kind"] == "cli":
+            # user action between runs: the input file is re-exported as an already rectangular table of the same data
+            k_in = f"1:{run['pin']}.pin"
+            st2 = dict(state)
+            st2[k_in] = reference_tsv(e.pins[run["pin"]]).encode()
+            if st2 != state:
+                seen[faults.state_key(st2)] = (st2, hist + [{"run": run, "fault": [-2, "user-reexport", [k_in]]}])
+                acc.count("transitions")
         for k in range(len(trace)):
             for kind in expand_kinds:
                 if kind == "torn" and not (trace[k][0].startswith("to_csv") or trace[k][0].startswith("open") or trace[k][0] == "to_parquet"):
@@ -340,6 +351,9 @@ def replay(case):
     e = env()
     faults.materialize(e.initial, e.dirs())
     for step in case["history"]:
+        if step["fault"][1] == "user-reexport":
+            (e.inp / f"{step['run']['pin']}.pin").write_bytes(reference_tsv(e.pins[step["run"]["pin"]]).encode())
+            continue
         e.execute(step["run"], plan=None if step["fault"][1] == "none" else (step["fault"][0], step["fault"][1]))
     state = faults.snapshot(e.dirs())
     check_state_run(state, case["run"], acc, case["history"])
